@@ -14,6 +14,7 @@ import os
 import random
 
 import vlib
+from checks import brokerlib
 
 GEN_DOMAIN = 'CONSTANTS L = {%s} N = %d\nSPECIFICATION Spec\nCHECK_DEADLOCK FALSE\n'
 GEN_HIST = ('CONSTANTS Sessions = {%s} Filters <- %s QoSes = {%s} Depth = %d\n'
@@ -149,8 +150,36 @@ def check(run):
               % (scn[0].get("mode"), json.dumps(scn[line - 1].get("t")), json.dumps(scn[line - 1].get("got")), json.dumps(ops)),
               {"kind": "trie", "scenario": {"mode": scn[0].get("mode"), "ops": ops, "topics": [scn[line - 1].get("t")], "probe": "end"},
                "trace": scn[:1] + ops + [scn[line - 1]]})
+    # ---- broker level: the same TLC-generated histories through real sessions, publishes read at the client ends
+    bh = hs[:: max(1, len(hs) // (900 if thorough else 70))]
+    bscns = []
+    ptopics = [["a"], ["a", "b"], ["a", "b", "c"], ["b"], ["a", ""], ["", "b"]]
+    for k, h in enumerate(bh):
+        ops = [{"op": "connect", "c": 1, "n": 1, "client": "s1", "ka": 600}, {"op": "connect", "c": 2, "n": 1, "client": "s2", "ka": 600},
+               {"op": "connect", "c": 9, "n": 1, "client": "pub", "ka": 600}, {"op": "pub", "c": 9, "t": ["zz"], "p": "warm", "q": 0, "id": 0}]
+        pid = 0
+        for i, o in enumerate(h):
+            c = 1 if o["s"] == "s1" else 2
+            if o["op"] == "sub":
+                ops.append({"op": "sub", "c": c, "id": 10 + i, "fs": [{"f": o["f"], "q": o["q"]}]})
+            else:
+                ops.append({"op": "unsub", "c": c, "id": 10 + i, "fs": [{"f": o["f"], "q": 0}]})
+            for t in (ptopics[(k + i) % len(ptopics)], ptopics[(k + 2 * i + 3) % len(ptopics)]):
+                pid += 1
+                ops.append({"op": "pub", "c": 9, "t": t, "p": "m%d" % pid, "q": pid % 2, "id": pid})
+        ops.append({"op": "quiesce"})
+        bscns.append({"nodes": [1], "ops": ops})
+    btpath, crashes = brokerlib.execute(run, bscns, "c01b", shards=12)
+    if crashes:
+        raise vlib.Inconclusive("broker driver died: %s" % crashes[0][2][-2000:])
+    bnev, bnscn, bvalidated, brejected, btstates = brokerlib.validate(run, "C01", bscns, btpath, v)
+    run.log("broker level: validated %d of %d history scenarios (%d events)" % (bvalidated, len(bscns), bnev))
+    validated += bvalidated
+    tstates += btstates
+    rejected = rejected + brejected
     rc = v.finish()
     vlib.write_evidence(run, {
+        "broker_level_scenarios": len(bscns), "broker_level_events": bnev,
         "traces_validated_against_impl": validated,
         "evaluations": nev,
         "distinct_nontrivial": len(scns),
@@ -167,7 +196,7 @@ def check(run):
         "samples": [scns[0]["ops"], scns[len(scns) // 2]["ops"], scns[-1], {"trace_excerpt": vlib.head_events(tpath, 5)}],
     }, ["filters with '#' in a non-final position or '+'/'#' inside a level are invalid in MQTT and excluded",
         "topic/filter strings are built by the harness by joining level sequences with '/'; the empty string (single empty level) is excluded",
-        "broker-level delivery (PUBLISH packets at client ends) is validated by the node-harness part of this check when present"],
+        "broker level: an even sample of the TLC-generated histories is replayed through two real sessions on one node with two publishes after every step; BrokerTrace requires one PUBLISH per matching active subscription and none otherwise"],
         violations=v.n_new)
     run.log("validated %d scenarios, %d rejected (%d known)" % (validated, len(rejected), v.n_known))
     return rc
@@ -175,6 +204,8 @@ def check(run):
 
 def replay(run, path):
     rp = json.load(open(path))
+    if rp.get("kind") == "broker":
+        return brokerlib.replay(run, "C01", path)
     spath = os.path.join(run.scratch, "scenarios.ndjson")
     with open(spath, "w") as f:
         f.write(json.dumps(rp["scenario"]) + "\n")
